@@ -13,6 +13,7 @@ import pandapipes as pp
 from pandapipes.pandapipes_net import Sector
 
 ID = "C16"
+CASE_WEIGHT = 1   # relative cost of one case (pool sizing)
 LEVEL = "fault_enumeration"
 RULE = ("for each of the 30 create_* functions (single and bulk): the valid call (defaults omitted), the valid call with every "
         "optional argument given, and EVERY fault from the menu {non-existing junction at each junction argument, "
